@@ -659,6 +659,9 @@ func dumpEq(d txn.Dump, m txn.Model, names []string, newStores map[string]bool, 
 		if fmt.Sprint(d.Stores[n]) != fmt.Sprint(m[n]) && !(len(d.Stores[n]) == 0 && len(m[n]) == 0) {
 			return false, fmt.Sprintf("store %s = %v, model %v", n, d.Stores[n], m[n])
 		}
+		if d.Counts[n] != int64(len(m[n])) {
+			return false, fmt.Sprintf("store %s Count=%d, model has %d items (%v)", n, d.Counts[n], len(m[n]), d.Stores[n])
+		}
 	}
 	return true, ""
 }
@@ -772,7 +775,11 @@ func judge(run *ev.Run, prop string, s shape, c *caseOut) string {
 		}
 		// commit (or an operation) failed: nothing may be visible
 		if ok, why := dumpEq(*ch.After, before, names, newStores, true); !ok {
-			viol("failed-commit-left-trace", "same process, right after the failure: "+why+" (error was: "+ch.EndErr+ch.OpErr+")")
+			kind := "failed-commit-left-trace"
+			if strings.Contains(why, "Count=") {
+				kind = "failed-commit-left-count"
+			}
+			viol(kind, "same process, right after the failure: "+why+" (error was: "+ch.EndErr+ch.OpErr+")")
 		}
 		if prop == "C07" {
 			if ch.Retry != nil && !ch.Retry.Committed {
